@@ -59,7 +59,7 @@ fn read_patterns_small() -> Vec<Value> {
         json!({"steps":[["send"],["efs_bytes"]]}),
         json!({"steps":[["send"],["split_bytes"]]}),
         // the streaming text reader over an ASCII payload, short buffers with empty reads in between
-        json!({"steps":[["send"],["text_reader"]],"pk":"ascii","reader_bufs":[3,1,8],"text_is_payload":true}),
+        json!({"steps":[["send"],["text_reader"]],"pk":"ascii","reader_bufs":[1,2,1,8],"text_is_payload":true}),
     ]
 }
 
